@@ -1,6 +1,9 @@
 package vf
 
-import "fmt"
+import (
+	"fmt"
+	"strings"
+)
 
 // d1Spaces returns the shared container state spaces (DESIGN §4.4) with the given oracle set.
 // bias selects the value alphabet: "edge" (sizes at the inline limit / half slab), "aux" (what
@@ -133,6 +136,13 @@ func nestedFor(r *Run, oracles []string) []Spec {
 		}
 		if !r.Thorough() && r.ID != "C05" && (sp.Name == "nested-parent-split" || sp.Name == "nested-parent-split-map") {
 			continue // the parent-splitting universes are the expensive ones; C05 and C10 run them in the quick tier
+		}
+		if !r.Thorough() && strings.HasPrefix(sp.Name, "nested-fit-") {
+			// children exactly on / one over the inline limit: all five universes in C10; the two mixed-kind ones
+			// where structure and sizes are judged (C05, C06); none in C07 / C09 quick
+			if r.ID == "C07" || r.ID == "C09" || (sp.Name != "nested-fit-arr-map" && sp.Name != "nested-fit-map-arr") {
+				continue
+			}
 		}
 		out = append(out, sp)
 	}
